@@ -55,7 +55,7 @@ BOUNDS = {
     'thorough': {'skeletons': 'all with a same-scale or fixed-range op',
                  'recipe pairs': 'same', 'scenarios': 5},
 }
-REACH = {'hist': ['history']}
+REACH = {'hist': ['history'], 'bytes': ['bytes']}
 SKELS = ['chain_fc_reshape_softmax', 'softmax_reshape', 'chain_reshape_reshape',
          'tanh_concat_same', 'chain_tanh_fc', 'split_add',
          'intermediate_is_output', 'two_subgraphs_independent']
@@ -301,9 +301,93 @@ def jobs(tier, seed):
   for i in range(0, len(cs), 3):
     js.append(Job(f'hist:{i // 3}', job_hist, {'tier': tier,
                                                'cases': cs[i:i + 3]}))
+  bs = ['single_FC', 'fc_fc', 'const_shared_by_two_ops',
+        'chain_fc_reshape_softmax']
+  for i in range(0, len(bs), 2):
+    js.append(Job(f'bytes:{i // 2}', job_bytes, {'tier': tier,
+                                                 'skeletons': bs[i:i + 2]}))
   if tier == 'thorough':
     js.append(Job('hashseed', job_hashseed, {}))
   return js
+
+
+def _bytes_histories(mb, ra, rb, qsvs):
+  """Real serializer, concrete statistics: bytes of quantize(B) after
+  quantize(A) on one Quantizer / after another Quantizer used the shared
+  result, vs a fresh Quantizer(B)."""
+  import os as _os
+
+  def qz(q, res):
+    try:
+      with np.errstate(all='ignore'):
+        return bytes(q.quantize(copy.deepcopy(res) if res is None else res)
+                     .quantized_model)
+    except Exception as ex:  # pylint: disable=broad-except
+      return f'{type(ex).__name__}: {ex}'
+  out = []
+  for large in (False, True):
+    env = dict(_os.environ)
+    try:
+      if large:
+        _os.environ['AI_EDGE_QUANTIZER_VERIF'] = '1'
+        _os.environ['AI_EDGE_QUANTIZER_VERIF_LARGE_MODEL_THRESHOLD'] = '-1'
+      else:
+        _os.environ.pop('AI_EDGE_QUANTIZER_VERIF', None)
+      fresh = qz(quantizer_lib.Quantizer(mb, copy.deepcopy(rb)),
+                 copy.deepcopy(qsvs))
+      shared = copy.deepcopy(qsvs)
+      q = quantizer_lib.Quantizer(mb, copy.deepcopy(ra))
+      qz(q, shared)
+      q.load_quantization_recipe(copy.deepcopy(rb))
+      same_q = qz(q, shared)
+      q2 = quantizer_lib.Quantizer(mb, copy.deepcopy(rb))
+      two_q = qz(q2, shared)
+      again = qz(q2, shared)
+      tag = 'large-model path' if large else 'ordinary path'
+      if same_q != fresh:
+        out.append(f'{tag}: quantize(B) after quantize(A) on the same '
+                   'Quantizer differs from a fresh Quantizer(B)')
+      if two_q != fresh:
+        out.append(f'{tag}: quantize(B) on a second Quantizer sharing the '
+                   'calibration result differs from fresh')
+      if again != fresh:
+        out.append(f'{tag}: repeated quantize(B) differs')
+    finally:
+      _os.environ.clear()
+      _os.environ.update(env)
+  return out
+
+
+def job_bytes(job):
+  """Concrete end-to-end histories through the real FlatBuffers serializer,
+  ordinary and large-model path (hook) - serializer-side state that the
+  symbolic harness (serializer intercepted) cannot see."""
+  tier = job.args['tier']
+  fam = P.skeleton_family(tier)
+  n, cands = 0, []
+  for skel in job.args['skeletons']:
+    mb = fam[skel]
+    inp = flatbuffer_utils.read_model_from_bytearray(bytearray(mb))
+    recs = recipes(mb)
+    recs['WO4'] = [P.rule('.*', '*', 'WO4')]
+    recs['DRQ'] = [P.rule('.*', '*', 'DRQ')]
+    qsvs = P.concrete_qsvs(inp, None)
+    for a, b in (('WO', 'WO4'), ('WO4', 'WO'), ('a8w8', 'WO4'), ('DRQ', 'a8w8'),
+                 ('a16w8', 'DRQ')):
+      n += 1
+      pr = _bytes_histories(mb, recs[a], recs[b], qsvs)
+      if pr:
+        cands.append(Candidate('C14.bytes.history_independent', {
+            'concrete_bytes': True, 'skeleton': skel, 'A': a, 'B': b,
+            'problems': pr}))
+  st = {'paths': n, 'decisions': n, 'obligations': n,
+        'discharged': n - len(cands), 'solver_calls': 0, 'solver_time': 0.0,
+        'reached': {'bytes': n}}
+  for c in cands:
+    c.job = job.name
+  return JobResult(job.name, st, cands[:3], [], {}, samples=[
+      f'{n} concrete histories x (ordinary, large-model) serializer paths: '
+      'bytes equal to a fresh Quantizer'])
 
 
 def job_hashseed(job):
@@ -341,6 +425,17 @@ def replay(c):
   d = c['data']
   if d.get('concrete'):
     return True, 'hash-seed', str(d['hashes'])
+  if d.get('concrete_bytes'):
+    fam = P.skeleton_family('thorough')
+    mb = fam[d['skeleton']]
+    recs = recipes(mb)
+    recs['WO4'] = [P.rule('.*', '*', 'WO4')]
+    recs['DRQ'] = [P.rule('.*', '*', 'DRQ')]
+    inp = flatbuffer_utils.read_model_from_bytearray(bytearray(mb))
+    pr = _bytes_histories(mb, recs[d['A']], recs[d['B']],
+                          P.concrete_qsvs(inp, None))
+    return bool(pr), 'bytes depend on the call history', (
+        f"skeleton={d['skeleton']} A={d['A']} B={d['B']}: {pr[:2]}")
   fam = P.skeleton_family('thorough')
   mb = fam[d['skeleton']]
   recs = recipes(mb)
